@@ -21,8 +21,9 @@ so that gcd is `gcd(nred, x)`: the value lists hold the residues `x`.
 `Poly::from_roots` and `convolve_modn_ntt` are taken at their specification (coefficients of
 `∏ (X - r)`; cyclic convolution of length `d2`): that they meet it is property C10.  Of the
 convolution only the coefficients `k ≥ deg P` are read; for those no index wraps.
-The two `debug_assert!`s of `pm1_stage2_polyeval` compare values that are equal by construction
-(`bg = g^bexp`, `gexp = g^(d2²·d1/2)`); they are not modelled as panic sites.
+The two `debug_assert!`s of `pm1_stage2_polyeval` (`bg == exp_modn(g, bexp)`, `gexp == exp_modn(g, d2²·d1/2)` when
+`d2²·d1` fits 64 bits) are followed: `polyVals` evaluates the same `exp_modn` calls and is `none` when they panic or when
+the compared residues differ (they are equal by construction: `pm1_baby_complete`, `pm1_exp_modn_residues`).
 
 `none` = a panic site (assert, index out of range, `ZmodN::new` on an even or > 512-bit modulus,
 overflow in the checked profile); `some none` = the function returns `None`.
@@ -219,11 +220,33 @@ def babySteps (m d1 g : Nat) : Option (List Nat) :=
   let g2 := mulm m g g
   babyLoop m d1 g2 (d1 + 2) 1 1 g [g2] [g]
 
+/-- the value of `bexp` when the baby loop ends (the index of the last baby step pushed): the same loop on indices only -/
+def babyLastExp (d1 : Nat) : Nat → Nat → Nat → Nat
+  | 0, _, bexp => bexp
+  | f + 1, b, bexp =>
+    if b < d1 then
+      let b := b + 2
+      if b % 3 = 0 ∨ Nat.gcd b d1 ≠ 1 then babyLastExp d1 f b bexp else babyLastExp d1 f b b
+    else bexp
+
+/-- `debug_assert!(x == exp_modn(zn, &g, e))`: `true` = the assertion fails or `exp_modn` panics -/
+def expCheckPanics (m g x e : Nat) : Bool :=
+  match expModn (mulm m) (onem m) g e with
+  | none => true
+  | some y => x != y
+
 /-- `for _ in 0..d2 { steps.push(gexp); gexp *= dg; gaps.push(dg); dg *= ddg }`: (steps, gaps), both most recent first -/
 def giantLoop (m ddg : Nat) : Nat → Nat → Nat → List Nat → List Nat → List Nat × List Nat
   | 0, _, _, stepsRev, gapsRev => (stepsRev, gapsRev)
   | k + 1, gexp, dg, stepsRev, gapsRev =>
     giantLoop m ddg k (mulm m gexp dg) (mulm m dg ddg) (gexp :: stepsRev) (dg :: gapsRev)
+
+/-- `gexp` after the giant loop (the value the second `debug_assert!` compares): the last step pushed times the last
+gap pushed; `one` for `d2 = 0` -/
+def gexpEnd (m : Nat) (r : List Nat × List Nat) : Nat :=
+  match r.1, r.2 with
+  | s :: _, d :: _ => mulm m s d
+  | _, _ => onem m
 
 /-- `gexp = one; for i in 0..d2 { gexp *= gaps[d2 - 1 - i]; negsteps.push(gexp) }` on the reversed gap list -/
 def cumProd (m : Nat) : Nat → List Nat → List Nat
@@ -250,11 +273,18 @@ def polyVals (m d1 d2 g : Nat) : Option (List Nat) :=
     match babySteps m d1 g with
     | none => none
     | some bsteps =>
+      -- debug_assert!(bg == exp_modn(zn, &g, bexp)): `bg` is the last baby step pushed
+      if expCheckPanics m g (bsteps.getLast?.getD g) (babyLastExp d1 (d1 + 2) 1 1) then none
+      else
       match expModn (mulm m) (onem m) g (d1 / 2) with
       | none => none
       | some dg =>
         let ddg := mulm m dg dg
         let (stepsRev, gapsRev) := giantLoop m ddg d2 (onem m) dg [] []
+        -- `gexp` after the loop: the last step pushed times the last gap pushed
+        -- if let Some(e) = (d2 * d2).checked_mul(d1) { debug_assert!(gexp == exp_modn(zn, &g, e / 2)) }
+        if d2 * d2 * d1 < 2 ^ 64 ∧ expCheckPanics m g (gexpEnd m (stepsRev, gapsRev)) (d2 * d2 * d1 / 2) then none
+        else
         let negsteps := cumProd m (onem m) gapsRev
         if d2 = 0 ∨ d2 ≠ 2 ^ Nat.log2 d2 then none               -- assert!(d2 & (d2 - 1) == 0)
         else if d2 / 2 < 28 then none                             -- znx.mzp().unwrap(): no NTT below FFT_THRESHOLD
